@@ -134,14 +134,16 @@ def MartynovSarkisov_calculate_shipped(self, r, gamma):
 def _calc_cases(clsref, allow_sigma_none=True):
     def gen():
         for hc in (False, True):
-            for pot in ('array', 'none'):
+            for pot in ('array', 'none', 'int-array'):
                 for sig in (('real', 'none') if allow_sigma_none or not hc else ('real',)):
+                    if pot == 'int-array' and not (hc and sig == 'real'):
+                        continue        # an integer-valued potential (a square well written with np.where): the core values -1-gamma must not be truncated
                     def build(f, hc=hc, pot=pot, sig=sig):
                         n = f.int('n', lo=0)
                         m = f.int('m', lo=0)
                         gamma = f.array('gamma', (n,))
                         r = f.array('r', (n,))          # precondition: r and gamma live on the same grid
-                        u = f.array('u', (m,)) if pot == 'array' else None
+                        u = f.array('u', (m,)) if pot == 'array' else (f.array('u', (m,), dtype='int') if pot == 'int-array' else None)
                         sigma = f.real('sigma') if sig == 'real' else None
                         old_value = f.array('old_value', (n,))   # whatever an earlier call left behind
                         # a real closure object (constructor run), then populated the way PRISM.__init__ does
